@@ -226,7 +226,10 @@ def run_op(case, num):
         if a.w is not None or not a.scalar:
             raise Skip()
         val = Integrate.scalar(A)
-        return [("value", (oracle.frac(val),), None)], [val]
+        # also a degree-elevated twin (degree + 5): same function, the default rule then uses 6..9 nodes
+        hi = oracle.refine_state(a, oracle.elevated_vector(a.U, a.p, 5), a.p + 5)
+        val2 = Integrate.scalar(build_state_curve(hi, cA["num"]))
+        return [("value", (oracle.frac(val),), None), ("value", (oracle.frac(val2),), None)], [val, val2]
     raise lib.HarnessError("unknown op " + op)
 
 
@@ -260,7 +263,8 @@ def expected(case, num="frac"):
         return [("pointwise", a, b, op)]
     if op == "integrate":
         p = a.p
-        return [("value", (sum(a.P[i][0] * (a.U[i + p + 1] - a.U[i]) for i in range(a.n)) / (p + 1),))]
+        v = ("value", (sum(a.P[i][0] * (a.U[i + p + 1] - a.U[i]) for i in range(a.n)) / (p + 1),))
+        return [v, v]
     raise lib.HarnessError(op)
 
 
